@@ -202,7 +202,10 @@ def main_for(chk: Check, pid: str, models: bool = True):
                       "ptab[:3]": r["ptab"][:3], "calls_per_phase": [len(c) for c in r["calls"]], "task": r["spec"]["desc"]["vars"]})
     canaries(chk, pid, ok)
     if pid == "C17":
-        elite_sweep(chk)
+        # an optimizer whose greedy-per-agent refinement (X.slotwise) failed is a suspect: its replacement is no longer purely
+        # greedy, and whether the BEST agent is ever hit is a matter of many more cycles - escalate the sweep for it
+        suspects = sorted(set(ext.get("X.slotwise", {})) - gen.NON_ELITIST)
+        elite_sweep(chk, suspects)
     if pid == "C03":
         pooled_best_sweep(chk)
     if pid == "C06":
@@ -346,7 +349,7 @@ def _elite_run(spec):
     return {"opt": opt, "dir": desc["minmax"], "bests": bests, "best": res.best_solution.cost, "spec": spec}
 
 
-def elite_sweep(chk: Check):
+def elite_sweep(chk: Check, suspects=()):
     """C17 needs the best agent itself to be hit by a faulty replacement: many long runs of every claimed optimizer"""
     import concurrent.futures as cf
     rng = random.Random(chk.seed + 4242)
@@ -355,7 +358,7 @@ def elite_sweep(chk: Check):
     for opt in gen.OPTIMIZERS:
         if opt in gen.NON_ELITIST:
             continue
-        for _ in range(120 if thorough else 12):
+        for _ in range((120 if thorough else 12) + (150 if opt in suspects else 0)):
             d = gen.task_desc(rng, rng.choice(["contmulti", "cont"]), dim=rng.choice([1, 2, 3, 5]))
             d["scale"] = rng.choice([1.0, 1.0, 1.0, 1e-20, 1e12])
             specs.append({"opt": opt, "desc": d,
@@ -378,6 +381,7 @@ def elite_sweep(chk: Check):
         r = outs[rid - 1]
         chk.violation(clause, {"optimizer": r["opt"]}, {"run": r["spec"], "bests": r["bests"][:80]})
     chk.extra["elite_sweep_runs"] = consumed
+    chk.extra["elite_sweep_escalated_for"] = list(suspects)
     chk.extra["elite_sweep_generations"] = sum(len(r["bests"]) for r in outs)
     for r in outs:
         chk.distinct.add((r["opt"], "long", r["dir"], len(r["bests"])))
